@@ -46,6 +46,12 @@ def cell_types(bank):
     return t
 
 
+# which banks have a lock byte / can be latched: IEC 62386-102 (bank 1), DiiA part 252 (202-204: latch),
+# part 253 (205, 206: lock and latch; 207: lock) - not read from the library's declaration
+SPEC_HAS_LOCK = {1, 205, 206, 207}
+SPEC_HAS_LATCH = {202, 203, 204, 205, 206}
+
+
 def make_model(key, r, last=None, holes=(), lock=0xFF, pattern="random", unlock_value=0x55):
     """A MemBank model for library bank `key` with a seeded image."""
     lib = BANKS[key]
@@ -91,13 +97,13 @@ def make_model(key, r, last=None, holes=(), lock=0xFF, pattern="random", unlock_
     cells[0] = last
     cells[1] = r.choice([None, r.randrange(256)])
     if lib.address != 0:
-        cells[2] = lock if (lib.has_lock or lib.has_latch) else r.randrange(256)
+        cells[2] = lock if (lib.address in SPEC_HAS_LOCK or lib.address in SPEC_HAS_LATCH) else r.randrange(256)
     for h in holes:
         if h > 2 or (h == 2 and lib.address == 0):
             cells[h] = None
     cells[255] = None
-    m = busim.MemBank(lib.address, cells, types=cell_types(lib), has_lock=lib.has_lock,
-                      has_latch=lib.has_latch, unlock_value=unlock_value)
+    m = busim.MemBank(lib.address, cells, types=cell_types(lib), has_lock=lib.address in SPEC_HAS_LOCK,
+                      has_latch=lib.address in SPEC_HAS_LATCH, unlock_value=unlock_value)
     return m
 
 
